@@ -67,7 +67,7 @@ fn strategy(_t: Tier) -> BoxedStrategy<Case> {
         .boxed()
 }
 
-fn run(c: &Case) -> Verdict {
+pub fn run(c: &Case) -> Verdict {
     let (ma, mb) = (c.a.model(), c.b.model());
     let a = lib!("cube construction", c.a.build());
     let b = lib!("cube construction", c.b.build());
@@ -316,8 +316,8 @@ pub fn def() -> PropDef {
             "cubes are observed through pos_vars()/neg_vars()/value()/==",
         ],
         subs: vec![
-            Box::new(Sub { name: "pairs", rule: "see property rule", strategy, cases: (40_000, 3_000_000), exhaustive: Some(enumerate), exhaustive_note: "all ordered pairs of the 3^n+1 cubes, all assignments, n<=4 (quick) / n<=5 (thorough)", run }),
-            Box::new(Sub { name: "implies_lut", rule: "definition of implicant", strategy: strategy_lut, cases: (20_000, 1_000_000), exhaustive: Some(enumerate_lut), exhaustive_note: "all cubes x all functions, n<=3 (quick) / n<=4 (thorough)", run: run_lut }),
+            Box::new(Sub { name: "pairs", rule: "see property rule", strategy, cases: (400_000, 6_000_000), exhaustive: Some(enumerate), exhaustive_note: "all ordered pairs of the 3^n+1 cubes, all assignments, n<=4 (quick) / n<=5 (thorough)", run }),
+            Box::new(Sub { name: "implies_lut", rule: "definition of implicant", strategy: strategy_lut, cases: (200_000, 2_000_000), exhaustive: Some(enumerate_lut), exhaustive_note: "all cubes x all functions, n<=3 (quick) / n<=4 (thorough)", run: run_lut }),
             Box::new(Sub { name: "all", rule: "enumeration and minterms", strategy: strategy_all, cases: (0, 0), exhaustive: Some(enumerate_all), exhaustive_note: "n in 0..=8 (quick) / 0..=9 (thorough)", run: run_all }),
         ],
     }
